@@ -23,6 +23,8 @@ const resolverRel = "internal/pkg/resolver"
 func C03(e *Env) {
 	r := e.R
 	e.analysedBase()
+	yamlKeysRule(e, "R11.12", "parameters", "arguments", "fields")
+	e.R.Rule("R11.12", "key table (shared with C11): parameters (and the argument positions) are recognised under their documented spelling", 3)
 	r.Rule("R03.1", "sanitisation: user data reaches generated source only quoted (%+q / %q), exported (exporter.MustExport, template export) or as a capture group of a grammar that admits no whitespace, quote or backslash; the one reviewed raw position is the argument list of a function token (documented: it must be valid Go); interface{}-typed Raw values are printed by the templates through export only", 14)
 	r.Rule("R03.2", "token-factory order: each factory's accepted language is read from its Supports (exact %%, %…% with a reference name, %…% with fn(args), any %…%, anything); in the wired order no factory is shadowed by an earlier one that contains its language; the catch-all is last; registered functions are prepended, so they precede the unexpected-function factory", 6)
 	r.Rule("R03.3", "single vs multi: Tokens.GoCode returns an error for no token, the provider of the token's own code for exactly one token (type preserved), and the concatenating provider over all token codes in order otherwise", 4)
